@@ -383,6 +383,7 @@ pub fn run_batch(spec: &BatchSpec) -> BatchOut {
                     let end = (base + CHUNK).min(spec.runs);
                     for r in base..end {
                         let run = spec.first_run + r;
+                        heartbeat();
                         if let Some(f) = &idx_file {
                             use std::os::unix::fs::FileExt;
                             let _ = f.write_at(&run.to_le_bytes(), 0);
@@ -430,6 +431,7 @@ pub fn run_batch(spec: &BatchSpec) -> BatchOut {
                         }
                     }
                 }
+                heartbeat_done();
                 let mut m = merged.lock().unwrap();
                 m.runs += out.runs;
                 m.stats.merge(&out.stats);
